@@ -90,6 +90,8 @@ def run(run):
     # the first input that reached it (C14.R3): "equals tiling the mosaic" includes the DATAMIN / DATAMAX cards
     from . import C14 as c14
     common.delegate(run, "C09.R2", "C14", c14._r3_leaves, only_rules={"C14.R3"}, note="premise: a re-saved shared tile records the range of its merged pixels")
+    # (F15, the reducer that lets an infinite pixel suppress the card, is the same on the mosaic route: not a difference between the two)
+    run.obs[:] = [o for o in run.obs if not (o.rule == "C09.R2" and (o.kind or "").endswith("range-ignores-infinities"))]
     parity.check(run, "C09.R6", skip_classes=("ToastSampler", "TileMerger", "StudyTiling"))
     # flipping an input (image or description) to the tile parity must be the exact reflection decided by C16
     from . import C16 as c16
